@@ -71,8 +71,14 @@ def make_policy(p, other_counters=False):
     if p["kind"] == "int":
         return p["total"]
     kw = dict(total=_pyval(p["total"]), redirect=_pyval(p["redirect"]), raise_on_redirect=p["raise"])
-    if p["rmsp"] != "default":
-        kw["remove_headers_on_redirect"] = [spell(k, p["rmsp"]) for k in sorted(p["remove"])]
+    ct = p["rmct"]
+    if ct != "default":       # how the caller hands over the names: container type x spelling
+        names = [spell(k, p["rmsp"]) for k in sorted(p["remove"])]
+        if ct == "defaultplus":
+            extra = {spell(k, p["rmsp"]) for k in p["remove"] if k not in ("auth", "cookie", "pauth")}
+            kw["remove_headers_on_redirect"] = Retry.DEFAULT_REMOVE_HEADERS_ON_REDIRECT | extra
+        else:
+            kw["remove_headers_on_redirect"] = {"list": list, "tuple": tuple, "set": set, "frozenset": frozenset}[ct](names)
     if other_counters:      # growth module RedirectMeta: counters a redirect chain must leave alone
         kw.update(connect=5, read=6, status=7, other=8)
     return Retry(**kw)
@@ -293,6 +299,7 @@ CONSTANTS
   ShardS = {s}
   SampleKB = {skb}
   SampleKH = {skh}
+  CfgKH = {ckh}
   Seed = {seed}
   LmaxB = {lb}
   LmaxH = {lh}
@@ -310,10 +317,10 @@ INV_MODEL = ["ClausesKnown", "WireBound", "FollowsToBudget"]
 PROPS = ["StrippedStaysStripped", "MethodOnlyBy303"]
 
 
-def mc_cfg(*, mode="free", maxhops=3, dev=AS_IS, family="free", k=1, s=0, skb=1, skh=1, seed=0, lb=3, lh=3, codes=ALL_CODES,
+def mc_cfg(*, mode="free", maxhops=3, dev=AS_IS, family="free", k=1, s=0, skb=1, skh=1, ckh=1, seed=0, lb=3, lh=3, codes=ALL_CODES,
            alpha="small", client="all", view=True, invs=(), props=()):
     tail = (["VIEW View"] if view else []) + ["INVARIANT " + i for i in invs] + ["PROPERTY " + p for p in props]
-    return MC_CFG.format(mode=mode, maxhops=maxhops, dev=dev, family=family, k=k, s=s, skb=skb, skh=skh, seed=seed,
+    return MC_CFG.format(mode=mode, maxhops=maxhops, dev=dev, family=family, k=k, s=s, skb=skb, skh=skh, ckh=ckh, seed=seed,
                          lb=lb, lh=lh, codes=codes, alpha=alpha, client=client, tail="\n".join(tail))
 
 
@@ -357,6 +364,8 @@ def gate_jobs(rep, pid):
                   mc_cfg(maxhops=2, dev='{"D10"}', client="proxy", invs=["SensitiveStripped"]), "SensitiveStripped"),
                  ("deviation EmptyIsMissing (an emptied header mapping is replaced by the defaults)",
                   mc_cfg(maxhops=1, dev='{"EmptyIsMissing"}', client="pm", invs=["SensitiveStripped"]), "SensitiveStripped"),
+                 ("deviation FrozensetNotNormalised (a frozenset of names is taken for already lower-cased)",
+                  mc_cfg(maxhops=1, dev='{"FrozensetNotNormalised"}', client="pm", invs=["SensitiveStripped"]), "SensitiveStripped"),
                  ("deviation IgnorePort", mc_cfg(maxhops=1, dev='{"IgnorePort"}', client="pool", invs=["SingleHostRefuses"]),
                   "SingleHostRefuses")]
         if rep.tier != "quick":
@@ -512,17 +521,17 @@ def run_property(rep, pid):
     stage1_main(rep, pid)
     K = 8 if quick else 16
     if quick:
-        plan = dict(skb=61, lb=3, skh=6007, lh=3) if pid == "C05" else dict(skb=283, lb=3, skh=1801, lh=3)
+        plan = dict(skb=61, lb=3, skh=1201, ckh=17, lh=3) if pid == "C05" else dict(skb=283, lb=3, skh=1201, ckh=5, lh=3)
         nsim, nsimjobs = 400, 2
     else:
-        plan = dict(skb=13, lb=6, skh=1201, lh=4) if pid == "C05" else dict(skb=61, lb=6, skh=181, lh=4)
+        plan = dict(skb=13, lb=6, skh=1201, ckh=3, lh=4) if pid == "C05" else dict(skb=61, lb=6, skh=251, ckh=3, lh=4)
         nsim, nsimjobs = 8000, 8
     jobs = []
     for s in range(K):
         jobs.append((mc_cfg(mode="planned", family="planned", k=K, s=s, seed=rep.seed, view=False, alpha="full",
                             invs=["EmitInv", "ClausesKnown"], **plan), skip, 0, 0))
     for s in range(nsimjobs):
-        jobs.append((mc_cfg(mode="free", maxhops=6, family="sim", view=False, alpha="full", invs=["EmitInv"]), skip,
+        jobs.append((mc_cfg(mode="free", maxhops=6, family="sim", view=False, alpha="full", ckh=7, seed=rep.seed, invs=["EmitInv"]), skip,
                      nsim // nsimjobs, rep.seed * 100 + s + 1))
     gates = gate_jobs(rep, pid)
     with mp.Pool(min(JOBS, len(jobs) + len(gates))) as pool:
